@@ -111,6 +111,59 @@ def first_diff_chunk(a, b):
     return {"chunk": "?", "nested": False, "index": -1, "type": mtype, "a": None, "b": None}
 
 
+def ranged_cval_target(spec):
+    """If `spec` is a loadable file with exactly one top-level CVAL rewritten, and that CVAL
+    belongs to a controller whose value type is a plain range, return a description of the
+    target; else None.  (The statement presupposes that files carrying out-of-range values of
+    ranged controllers remain loadable: 'even when X carries controller values outside the
+    ranges this library knows'.)"""
+    from rv.controller import Range
+
+    pert = spec.get("perturb") or []
+    if len(pert) != 1 or pert[0][0] != "cval":
+        return None
+    base_spec = {k: v for k, v in spec.items() if k != "perturb"}
+    data = files.materialize(base_spec)
+    try:
+        base = load(data)
+    except Exception:
+        return None
+    chunks = chunkio.split(data)
+    cvals = [i for i, (_, nm, _) in enumerate(chunks) if nm == b"CVAL"]
+    if not cvals:
+        return None
+    target = cvals[pert[0][1] % len(cvals)]
+    section = -1
+    in_section = False
+    j = 0
+    for i, (_, nm, _) in enumerate(chunks):
+        if nm == b"SFFF":
+            section += 1
+            in_section = True
+            j = 0
+        elif nm == b"SEND":
+            if not in_section:
+                section += 1  # an empty module position
+            in_section = False
+        elif nm == b"CVAL":
+            if i == target:
+                break
+            j += 1
+    if type(base).__name__ == "Synth":
+        mod = base.module
+    else:
+        mod = base.modules[section] if 0 <= section < len(base.modules) else None
+    if mod is None or type(mod).__name__ == "MetaModule":
+        return None
+    keys = [n for n, c in mod.controllers.items() if c.attached(mod)]
+    if j >= len(keys):
+        return None
+    t = mod.controllers[keys[j]].instance_value_type(mod)
+    if not isinstance(t, Range):
+        return None
+    return {"type": type(mod).__name__, "controller": keys[j], "value": pert[0][2]}
+
+
 def pure_check(before, after, violations, i, when):
     for path, a, b in snapshot.diff(before, after, limit=20):
         violations.append(_v("save_is_pure", when=when, path=snapshot.path_class(path), detail={"op": i, "at": list(path), "before": snapshot.short(a), "after": snapshot.short(b)}))
@@ -141,6 +194,9 @@ def execute(case):
                 except (KeyboardInterrupt, HarnessTimeout):
                     raise
                 except BaseException as e:
+                    tgt = ranged_cval_target(op["file"])
+                    if tgt is not None:
+                        violations.append(_v("out_of_range_value_keeps_file_loadable", exc=type(e).__name__, detail={"op": i, "file": label, "target": tgt, "msg": str(e)[:120]}))
                     skipped["unloadable:" + type(e).__name__] = skipped.get("unloadable:" + type(e).__name__, 0) + 1
                     log.append((i, "load", label, "unloadable", type(e).__name__))
                     obj = None
